@@ -2000,9 +2000,12 @@ class InterCHKRevisionTree(InterInventoryTree):
                 ):
                     continue
                 if entry.file_id not in changed_file_ids:
+                    # The entry itself is unchanged, but one of its parents
+                    # may have been renamed or moved.
+                    source_path = self.source.id2path(entry.file_id)
                     yield InventoryTreeChange(
                         entry.file_id,
-                        (relpath, relpath),  # Not renamed
+                        (source_path, relpath),
                         False,  # Not modified
                         (True, True),  # Still  versioned
                         (entry.parent_id, entry.parent_id),
